@@ -31,10 +31,26 @@ def seeds_table():
     return buf.getvalue().strip()
 
 
+def coverage_table():
+    """section 11.4: what each quick run covered, from the evidence files of the last run"""
+    rows = ["| id | tier | M (TLC distinct states) | J / G (real executions judged) | known-finding hits | s |", "|---|---|---|---|---|---|"]
+    import glob
+    for f in sorted(glob.glob(os.path.join(VERIF, "evidence", "[CX]*.json"))):
+        e = json.load(open(f))
+        c = e["coverage"]
+        m = sum(r.get("distinct", 0) for r in c.get("model_checking_runs", []))
+        tb = c.get("trace_batches", [])
+        tr, ev, st = (sum(b.get(k, 0) for b in tb) for k in ("traces", "events", "states"))
+        kn = c.get("known_findings_hit", {})
+        kn = sum(kn.values()) if isinstance(kn, dict) else kn
+        rows.append(f"| {e['property_id']} | {e['tier']} | {m:,} | {tr:,} traces / {ev:,} events, {st:,} judge states | {kn} | {round(e['wall_s'])} |")
+    return "\n".join(rows)
+
+
 def main():
     p = os.path.join(VERIF, "DESIGN.md")
     s = open(p).read()
-    for tag, gen in (("FINDINGS", findings_table), ("SEEDS", seeds_table)):
+    for tag, gen in (("FINDINGS", findings_table), ("SEEDS", seeds_table), ("COVERAGE", coverage_table)):
         a, b = f"<!-- {tag}-BEGIN -->", f"<!-- {tag}-END -->"
         if a in s:
             i, j = s.index(a) + len(a), s.index(b)
